@@ -19,7 +19,7 @@ RULE = ("histories over events {block directive in +-SKIP, +-REQUIRES(met), +-RE
         "+-IGNORE_WHITESPACE} u {statement in form one-line / bracketed with the directive on the first or last line / "
         "compound with the directive on the header or the last body line / decorated / with a correct want / with a wrong "
         "want / with directive-looking text in a string / whitespace probe (passes only under IGNORE_WHITESPACE)} x inline "
-        "directive {none or any of the ten}; all histories up to length L over a 19-event alphabet are enumerated "
+        "directive {none or any of the ten}; all histories up to length L over a 20-event alphabet are enumerated "
         "(exhaustive=true for that sub-space), then random histories of length 5..12 over the full alphabet; every "
         "history is also run with --options defaults and compared with the model started in that state.  Non-trivial = the "
         "history contains a directive and a statement; distinct by rendered text + defaults")
@@ -36,26 +36,29 @@ UNMET_A = 'module:xv_nx_a_zz'
 UNMET_B = 'module:xv_nx_b_zz'
 DIRS = ['+SKIP', '-SKIP', '+REQUIRES(module:os)', '-REQUIRES(module:os)',
         '+REQUIRES(%s)' % UNMET_A, '-REQUIRES(%s)' % UNMET_A, '+REQUIRES(%s)' % UNMET_B, '-REQUIRES(%s)' % UNMET_B,
-        '+IGNORE_WHITESPACE', '-IGNORE_WHITESPACE']
+        '+IGNORE_WHITESPACE', '-IGNORE_WHITESPACE',
+        # several conditions in one directive: each is judged on its own, in order
+        '+REQUIRES(module:os, %s)' % UNMET_A, '+REQUIRES(%s, module:os)' % UNMET_A, '-REQUIRES(module:os, %s)' % UNMET_A,
+        '+REQUIRES(%s, %s)' % (UNMET_A, UNMET_B), '-REQUIRES(module:os, %s, %s)' % (UNMET_A, UNMET_B)]
 FORMS = ['one', 'multi', 'multi_first', 'compound', 'compound_last', 'deco', 'want', 'badwant', 'strlit', 'wsprobe',
          'decoclass', 'decoclass_last', 'decoasync']
 
-EX_ALPHABET = ([('block', d) for d in DIRS] +
+EX_ALPHABET = ([('block', d) for d in DIRS[:10] + [DIRS[10]]] +
                [('stmt', 'one', None), ('stmt', 'one', '+SKIP'), ('stmt', 'one', '-SKIP'),
                 ('stmt', 'one', '+REQUIRES(%s)' % UNMET_A), ('stmt', 'one', '-REQUIRES(%s)' % UNMET_A),
                 ('stmt', 'multi', '+SKIP'), ('stmt', 'badwant', '+SKIP'),
                 ('stmt', 'wsprobe', None), ('stmt', 'wsprobe', '+IGNORE_WHITESPACE')])
-assert len(EX_ALPHABET) == 19
+assert len(EX_ALPHABET) == 20
 
 
 def parse_dir(d):
-    """-> (name, positive, arg, met)"""
+    """-> (name, positive, [(arg, met) ...])"""
     pos = d[0] == '+'
     body = d[1:]
     if body.startswith('REQUIRES'):
-        arg = body[len('REQUIRES('):-1]
-        return ('REQUIRES', pos, arg, arg == 'module:os')
-    return (body, pos, None, False)
+        args = [a.strip() for a in body[len('REQUIRES('):-1].split(',')]
+        return ('REQUIRES', pos, [(a, a == 'module:os') for a in args])
+    return (body, pos, [])
 
 
 class Model(object):
@@ -66,15 +69,16 @@ class Model(object):
 
     def apply(self, d, state=None):
         skip, req, iw = state if state is not None else (self.skip, set(self.req), self.iw)
-        name, pos, arg, met = parse_dir(d)
+        name, pos, args = parse_dir(d)
         if name == 'SKIP':
             skip = pos
         elif name == 'REQUIRES':
-            if not met:
-                if pos:
-                    req = set(req) | {arg}
-                else:
-                    req = set(req) - {arg}
+            for arg, met in args:
+                if not met:
+                    if pos:
+                        req = set(req) | {arg}
+                    else:
+                        req = set(req) - {arg}
         elif name == 'IGNORE_WHITESPACE':
             iw = pos
         return skip, req, iw
@@ -335,7 +339,7 @@ def classify(v):
     return None
 
 
-LEVEL_TEXT = ("Exploration with an exhaustive core: every history up to length 3 (quick) / 4 (thorough) over a 19-event "
+LEVEL_TEXT = ("Exploration with an exhaustive core: every history up to length 3 (quick) / 4 (thorough) over a 20-event "
               "alphabet plus thousands of random longer histories over the full alphabet are run through the real parser, "
               "directive extraction and run loop; the set of statements that executed (unique-id event log) and the verdict "
               "are compared with a 30-line state machine, with and without --options defaults; a shadow state rides along on "
